@@ -4,6 +4,8 @@ mod shellrun;
 mod trapset;
 
 fn main() {
+    // shell children of the real-kernel stage re-execute this binary
+    yvcommon::real::maybe_child_main();
     let args: Vec<String> = std::env::args().collect();
     if args.len() < 2 {
         eprintln!("usage: yv-c11 <replay|random|redo|shell> ...");
@@ -17,6 +19,7 @@ fn main() {
         "midop" => trapset::midop(rest),
         "shell" => shellrun::shell(rest),
         "shell1" => shellrun::shell1(rest),
+        "shellreal" => shellrun::shellreal(rest),
         other => {
             eprintln!("unknown subcommand {other}");
             2
